@@ -15,7 +15,7 @@ open OptunaVerif OptunaVerif.Nsga2 OptunaVerif.Dist Driver Driver.Sub.Dist
 def fnum : Num Float :=
   { ninf := -((1.0 : Float) / 0.0), pinf := (1.0 : Float) / 0.0, zero := 0.0, one := 1.0,
     lt := fun a b => decide (a < b), le := fun a b => decide (a ≤ b), eq := fun a b => a == b,
-    sub := fun a b => a - b, add := fun a b => a + b, div := fun a b => a / b }
+    sub := fun a b => a - b, add := fun a b => a + b, div := fun a b => a / b, neg := fun a => -a }
 
 def parseBits (j : Json) : P Float := do
   let s ← j.getStr?
@@ -115,7 +115,7 @@ def run (j : Json) : P Json := do
     let rX := calcCrowding xnum popX
     let sX := crowdingSort xnum popX
     let exact := Json.mkObj [("after", natsJ (rX.1.map (·.number))), ("dists", distsXJ rX.2),
-      ("sorted", natsJ (sX.map (·.number))),
+      ("sorted", natsJ (sX.map (·.number))), ("sortedOld", natsJ ((crowdingSortOld xnum popX).map (·.number))),
       ("sortedDists", Json.arr (sX.map (fun x => xvalJ (lookupD xnum x.number rX.2))).toArray)]
     let withBits := popJ.all (fun p => (optF p "b").isSome)
     if withBits then
@@ -123,7 +123,7 @@ def run (j : Json) : P Json := do
       let rF := calcCrowding fnum popF
       let sF := crowdingSort fnum popF
       return Json.mkObj [("x", exact), ("f", Json.mkObj [("after", natsJ (rF.1.map (·.number))), ("dists", distsFJ rF.2),
-        ("sorted", natsJ (sF.map (·.number)))])]
+        ("sorted", natsJ (sF.map (·.number))), ("sortedOld", natsJ ((crowdingSortOld fnum popF).map (·.number)))])]
     else return Json.mkObj [("x", exact)]
   | "elite" =>
     let popJ ← arrF j "pop"
